@@ -1,5 +1,5 @@
 (** Theorems of component [sched] (C15; row-system half of C05), collected. *)
-From HQ Require Export Base.Prelude Gen.Consts Sched.Model Sched.ProofsOrder Sched.Optimal Sched.Witness.
+From HQ Require Export Base.Prelude Gen.Consts Sched.Model Sched.ProofsOrder Sched.Optimal Sched.Witness Sched.ProofsRows Sched.ProofsCuts.
 
 Lemma K1_refuted : exists I s d, refutes I s d VK1.
 Proof. exists k1_inst, k1_sol, k1_dispatch. exact k1_refutes. Qed.
@@ -11,3 +11,15 @@ Lemma K4_refuted : exists I s d, refutes I s d VK4.
 Proof. exists k4_inst, k4_sol, k4_dispatch. exact k4_refutes. Qed.
 Lemma K5_refuted : exists I s d, refutes I s d VK5.
 Proof. exists k5_inst, k5_sol, k5_dispatch. exact k5_refutes. Qed.
+
+(** Non-vacuity of the hypotheses of [C05_feasible_no_overbook_thm]: the K1 instance with the real solution. *)
+Example C05_hypotheses_satisfiable :
+  inst_wf k1_inst /\ exists bs m, create_task_batches k1_inst = Ok bs /\ milp_of k1_inst bs = Ok m
+                                   /\ feasible m k1_sol = true /\ mapping_ok k1_inst bs k1_sol k1_dispatch = true.
+Proof.
+  split.
+  - split.
+    + repeat constructor; simpl; intuition discriminate.
+    + intros c Hc. simpl in Hc. repeat (destruct Hc as [<-|Hc]; [split; repeat constructor|]); contradiction.
+  - destruct k1_refutes as (bs & m & H1 & H2 & H3 & _ & H5 & _). exists bs, m. auto.
+Qed.
